@@ -19,6 +19,15 @@ def norm_ws(s: str) -> str:
     return WS.sub(" ", s)
 
 
+def code_canon(c: str) -> str:
+    """content of a code span up to collapsing of whitespace runs in the raw span (allowed by C01 / C04): collapsing '`  a  `' to '` a `'
+    lets CommonMark strip the remaining pair of edge spaces, so ' a ' and 'a' are the same span; a one-sided edge space is content"""
+    c = norm_ws(c)
+    if len(c) > 2 and c[0] == " " and c[-1] == " " and c.strip():
+        c = c[1:-1]
+    return c
+
+
 def _pangu(t: str) -> str:
     """the single space flowmark deliberately puts between adjacent CJK and Latin characters (allowed by C01): applied to both sides"""
     try:
@@ -59,7 +68,7 @@ def inl_m(children):
                 else:
                     out.append(("br",))
             elif n == "CodeSpan":
-                out.append(("code", norm_ws(c.children)))
+                out.append(("code", code_canon(c.children)))
             elif n == "InlineHTML":
                 out.append(("html", norm_ws(c.children)))
             elif n in ("Emphasis", "StrongEmphasis", "Strikethrough", "CustomStrikethrough"):
@@ -155,7 +164,7 @@ def inl_i(nodes):
         elif t == "hardbreak":
             out.append(("br",))
         elif t == "code_inline":
-            out.append(("code", norm_ws(n.content)))
+            out.append(("code", code_canon(n.content)))
         elif t == "html_inline":
             out.append(("html", norm_ws(n.content)))
         elif t == "em":
